@@ -83,6 +83,12 @@ CHECKS["C04"] = dict(
     technique="TLA+ layout function checked for order-invariance and enumerated by TLC; generator output and raw object words compared with the prediction",
     design="DESIGN.md §5 C04")
 
+CHECKS["C20"] = dict(
+    text="spec/LayoutCheck.tla defines the C-visible interface of a trait/group, the verdict of comparing two builds and the verdict algebra; TLC checks the algebra laws and that, over the enumerated single-edit variants (add/remove/rename/reorder a method, change an argument or return type, receiver kind, int_result, add an argument; documentation, default bodies and skip_func methods; group traits added, removed, replaced, relisted), Valid is predicted exactly for interface-preserving edits. Every variant is rendered into its own module of a crate built with the layout_checks feature and compared with cglue's compare_layouts in both directions; missing descriptions must give Unknown; VerifyLayout::and is compared with the model on all 9 pairs.",
+    note="Trusted: TLC, abi_stable's layout comparison (the executed oracle), the renderer. Complete enumeration of the listed edit kinds on one base definition.",
+    technique="TLA+ interface/verdict model enumerated by TLC; each (definition, edit) pair compiled and compared at run time",
+    design="DESIGN.md §5 C20")
+
 NOT_YET = {}
 
 def main():
